@@ -18,7 +18,10 @@ import inferno  # noqa: E402
 from inferno.neural import (LIF, ALIF, GLIF1, GLIF2, QIF, Izhikevich, EIF, AdEx, DeltaCurrent, DeltaPlusCurrent,  # noqa: E402
                             SingleExponentialCurrent, DoubleExponentialCurrent, LinearDense, LinearDirect,
                             LinearLateral, Conv2D, Serial, Biclique, RecurrentSerial)
-from inferno.learn import STDP, TripletSTDP, MSTDP, MSTDPET  # noqa: E402
+from inferno.learn import (STDP, TripletSTDP, MSTDP, MSTDPET, KernelSTDP, DelayAdjustedKernelSTDP,  # noqa: E402
+                           DelayAdjustedKernelSTDPD, DelayAdjustedSTDP, DelayAdjustedSTDPD, DelayAdjustedMSTDP,
+                           DelayAdjustedMSTDPD, LinearHomeostasis)
+from inferno.functional import exp_stdp_post_kernel, exp_stdp_pre_kernel  # noqa: E402
 from .impl_neuron import RECIPES, CLASSES, ADAPTIVE, ADAPTIVE_THRESH, ADAPTIVE_CURRENT, build as build_neuron, forward as neuron_forward  # noqa: E402
 
 torch.set_num_threads(1)
@@ -317,7 +320,9 @@ class LayerFix(Fixture):
             if self.mode == "exact":
                 w = dy_tensor(rng, shape, signed=False, lo=1, hi=3) * gain
             else:
-                w = real_tensor(rng, shape, 2.0, 9.0) * gain
+                # one presynaptic spike moves the membrane by 1.5 .. 5 mV (threshold gap: 10 mV)
+                per_mv = self.dt / (1.0 - math.exp(-self.dt / self.np["tau"]))
+                w = real_tensor(rng, shape, 1.5, 5.0) * gain * per_mv
             d = None
             if self.delayed:
                 n = int(math.prod(c.delay.shape))
@@ -391,7 +396,26 @@ class LayerFix(Fixture):
         if n == "MSTDPET":
             return MSTDPET(lr_post=k["lrp"], lr_pre=k["lrm"], tc_post=k["tc1"], tc_pre=k["tc2"], tc_eligibility=k["tc1"],
                            interp_tolerance=1e-3, trace_mode=k["mode"], batch_reduction=torch.sum)
+        if n in ("DelayAdjustedSTDP", "DelayAdjustedMSTDP"):
+            cls = DelayAdjustedSTDP if n == "DelayAdjustedSTDP" else DelayAdjustedMSTDP
+            return cls(lr_pos=abs(k["lrp"]), lr_neg=-abs(k["lrm"]), tc_pos=k["tc1"], tc_neg=k["tc2"],
+                       interp_tolerance=1e-3, batch_reduction=torch.sum)
+        if n in ("DelayAdjustedSTDPD", "DelayAdjustedMSTDPD"):
+            cls = DelayAdjustedSTDPD if n == "DelayAdjustedSTDPD" else DelayAdjustedMSTDPD
+            return cls(lr_neg=-abs(k["lrm"]), lr_pos=abs(k["lrp"]), tc_neg=k["tc2"], tc_pos=k["tc1"],
+                       interp_tolerance=1e-3, batch_reduction=torch.sum)
+        if n in ("KernelSTDP", "DelayAdjustedKernelSTDP", "DelayAdjustedKernelSTDPD"):
+            kw = dict(kernel_post=exp_stdp_post_kernel, kernel_pre=exp_stdp_pre_kernel,
+                      kernel_post_kwargs=dict(learning_rate=k["lrp"], time_constant=k["tc1"]),
+                      kernel_pre_kwargs=dict(learning_rate=k["lrm"], time_constant=k["tc2"]), batch_reduction=torch.sum)
+            if n == "KernelSTDP":
+                return KernelSTDP(delayed=self.delayed, interp_tolerance=1e-3, **kw)
+            return (DelayAdjustedKernelSTDP if n == "DelayAdjustedKernelSTDP" else DelayAdjustedKernelSTDPD)(**kw)
+        if n == "LinearHomeostasis":
+            return LinearHomeostasis(plasticity=abs(k["lrp"]), target=0.5, param="weight", batch_reduction=torch.sum)
         raise KeyError(n)
+
+    REWARDED = ("MSTDP", "MSTDPET", "DelayAdjustedMSTDP", "DelayAdjustedMSTDPD")
 
     def sync(self, src, dst):
         pass
@@ -403,7 +427,7 @@ class LayerFix(Fixture):
             shp2 = (self.B, self.n_out)
             s2 = torch.tensor([self.rng.random() < 0.4 for _ in range(int(math.prod(shp2)))]).reshape(shp2).float()
             return (spikes, s2)
-        if self.trainer_name in ("MSTDP", "MSTDPET"):
+        if self.trainer_name in self.REWARDED:
             ex = self.mode == "exact"
             rew = torch.tensor([(self.rng.choice([-1.0, 0.5, 1.0, 2.0]) if ex else self.rng.uniform(-1, 2))
                                 for _ in range(self.B)])
@@ -424,13 +448,22 @@ class LayerFix(Fixture):
         if tr is not None:
             upd = obj.updater
             upd.clear()
-            if self.trainer_name in ("MSTDP", "MSTDPET"):
+            if self.trainer_name in self.REWARDED:
                 tr(inputs[1])
             else:
                 tr()
-            z = torch.zeros_like(obj.connection.weight)
-            pos, neg = upd.weight.pos, upd.weight.neg
-            res["acc"] = [z if pos is None else pos.detach().clone(), z if neg is None else neg.detach().clone()]
+            acc = []
+            for pname in ("weight", "delay"):
+                if pname == "delay" and not self.delayed:
+                    continue
+                try:
+                    a = getattr(upd, pname)
+                except AttributeError:
+                    continue
+                z = torch.zeros_like(getattr(obj.connection, pname))
+                pos, neg = a.pos, a.neg
+                acc += [z if pos is None else pos.detach().clone(), z if neg is None else neg.detach().clone()]
+            res["acc"] = acc
         return res
 
     def neurons(self, obj):
